@@ -285,3 +285,62 @@ def classify_refusal(case, refusal_key, message):
     if cvars & bad:
         return K_TYPER_BLIND
     return None
+
+
+def uninit_explained_vars(case):
+    """source variables without initial assignment that are assigned ONLY directly under the loop guard of a guarded loop"""
+    from .lang.ast import Program
+    prog = Program.from_json(case["ast"])
+    un = uninitialised_source_vars(case)
+    top, nested = guard_level_assigned(prog)
+    collapsed = len(prog.body) == 1 and prog.body[0][0] == "if" and len(prog.body[0][1]) == 1 and prog.body[0][2] is None
+    guarded = prog.guard != ("true",) or collapsed
+    return [v for v in un if v in top and v not in nested and guarded]
+
+
+def attribute_uninit(mod, case, res, tier):
+    """Counterfactual diagnosis of K_UNINIT for value-level violations (wrong moments, recurrences, conditional moments): the same
+    case is re-run with the stand-in initial values of the variables of uninit_explained_vars written as explicit initial assignments
+    (the source semantics is unchanged: the oracle uses those stand-ins anyway).  A violation whose goal is no longer violated in
+    the counterfactual run is explained by the one mechanism 'the initial value of an uninitialised guarded variable is missing from
+    its type'; everything else keeps key None.  If the counterfactual run does not finish in its time box, the static form of the
+    predicate (the goal mentions such a variable) is used."""
+    import re
+    from fractions import Fraction
+    from .lang.ast import Program, num
+    from .lang.printer import program_str
+    from .checks import common as K
+    unkeyed = [v for v in res.get("violations", []) if v.get("key") is None]
+    if not unkeyed or case.get("_cf") or "ast" not in case or "inits" not in case:
+        return
+    ex = uninit_explained_vars(case)
+    if not ex:
+        return
+    inits = K.frac_dec(case["inits"])
+    if not all(isinstance(inits.get(v), Fraction) for v in ex):
+        return
+    prog = Program.from_json(case["ast"])
+    prog2 = Program(prog.typedefs, [("assign", v, ("poly", num(inits[v]))) for v in ex] + list(prog.init), prog.guard, prog.body)
+    case2 = dict(case, text=program_str(prog2), ast=prog2.to_json(), id=str(case.get("id")) + "-explicit-init", _cf=True)
+    case2.pop("cli", None)
+    bad_goals, ran = set(), False
+    try:
+        with K.soft_timeout(getattr(mod, "TIMEOUT", {}).get(tier, 30) * 0.35):
+            r2 = mod.run_case(case2, tier)
+        if r2.get("verdict") in ("held", "violated"):
+            ran = True
+            bad_goals = {str(v.get("goal")) for v in r2.get("violations", [])}
+    except BaseException as e:
+        if isinstance(e, (KeyboardInterrupt, SystemExit)):
+            raise
+    n = 0
+    for v in unkeyed:
+        g = str(v.get("goal"))
+        mentions = bool(set(re.findall(r"[A-Za-z_][A-Za-z_0-9]*", g)) & set(ex))
+        if mentions and (not ran or g not in bad_goals):
+            v["key"] = K_UNINIT
+            v["attribution"] = ("counterfactual: not violated once " + ", ".join(ex) + " have explicit initial assignments") if ran \
+                else "static: the goal mentions an uninitialised variable assigned only under the guard (counterfactual run did not finish)"
+            n += 1
+    if n:
+        res.setdefault("events", {})["uninit-counterfactual-attributions"] = n
